@@ -447,6 +447,9 @@ def laws(rng, tier, ctx):
         except Timeout:
             yield Finding('violation', case, 'join / xor did not return within its time budget')
             continue
+        except Exception as e:
+            yield Finding('violation', case, 'join / xor raised %s on a valid call' % type(e).__name__)
+            continue
         # the v / u columns identify the rows: v = 100 + i, u = 200 + j
         got = Counter(zip(j['v'], j['u'])) if len(j) else Counter()
         want = Counter((100 + i, 200 + jj) for i in range(nx) for jj in range(ny) if match[i][jj])
